@@ -193,6 +193,45 @@ def rule_layout(chk, prog, tier):
     r.exhaustive = (tier == 'thorough')
 
 
+HUGE = {'C63': (2 ** 63, 1), 'C64m1': (2 ** 64 - 1, 1), 'C64m3': (2 ** 64 - 3, 1), 'L60': (2 ** 63, 8), 'L61m1': (2 ** 64 - 8, 8)}      # char[2^63], char[2^64-1], char[2^64-3], long[2^60], long[2^61-1]
+
+
+def rule_size_overflow(chk, prog, tier):
+    r = chk.rule('C06.h', 'the size of a structure or union never wraps around: when members (with their padding, the bit-field units and the tail padding) add up to 2^64 bytes or more the type is diagnosed, like an array that is too large; '
+                 'below that the layout is the exact one', floor=20, oracle='unbounded-integer layout of props/c06.py:layout; C11 5.2.4.1 / 6.5.3.4 (sizeof yields the size in bytes)')
+    TY.update(HUGE)
+    try:
+        def mt(w, ty):
+            if ty in HUGE:
+                el = 'char' if ty.startswith('C') else 'long'
+                n = HUGE[ty][0] // (1 if el == 'char' else 8)
+                a = w.it.call('mkarraytype', [w.t(el), 0, n]); return a
+            return mtype(w, ty)
+        seqs = []
+        for a in HUGE:
+            for b in ('char', 'int', 'long', 'C63', 'L60', 'C64m3'):
+                seqs.append(((a, None, True, 0), (b, None, True, 0)))
+                seqs.append(((b, None, True, 0), (a, None, True, 0)))
+            seqs.append(((a, None, True, 0),))
+            seqs.append(((a, None, True, 0), ('int', 3, True, 0)))
+            seqs.append(((a, None, True, 0), ('long', 40, True, 0), ('long', 40, True, 0)))
+        seqs = list(dict.fromkeys(seqs))
+        for kind in ('struct', 'union'):
+            res = run_layout(prog, list(enumerate(seqs)), kind, mtype_fn=mt)
+            for si, (outcome, val) in res.items():
+                seq = seqs[si]
+                size, align, want = layout(seq, kind == 'union')
+                key = 'size-overflow:%s { %s }' % (kind, fmt(seq))
+                if outcome == 'unsupported': raise AnalysisBroken('%s: %s' % (key, val))
+                if size >= 2 ** 64:
+                    r.instance(outcome == 'terminal:error', key, 'decl.c:addmember', 'the members need %d bytes (>= 2^64): must be diagnosed; cproc: %s' % (size, 'sizeof %s' % val[0] if outcome == 'return' else outcome))
+                else:
+                    r.instance(outcome == 'return' and (val[0], val[1]) == (size, align), key, 'decl.c:addmember', 'sizeof %d _Alignof %d expected; cproc: %s %s' % (size, align, outcome, val[:2] if outcome == 'return' else val))
+    finally:
+        for k in HUGE: TY.pop(k, None)
+    r.exhaustive = False
+
+
 def rule_packed_alignas(chk, prog, tier):
     r = chk.rule('C06.b2', 'packed structs place every member (scalars, arrays, nested structs) at the next byte with alignment 1 and no tail padding; _Alignas(n) on a member raises its alignment and the struct\'s', floor=700,
                  oracle='gcc 12 __attribute__((packed)) / _Alignas member layout (reference validated by tools/validate_c06_ref.py)')
@@ -858,3 +897,4 @@ def run(chk, tier):
     chk.guard('C06.e', lambda: rule_arrays(chk, prog, tier))
     chk.guard('C06.f', lambda: rule_alignspec(chk, prog, tier))
     chk.guard('C06.g', lambda: rule_member_access(chk, prog, tier))
+    chk.guard('C06.h', lambda: rule_size_overflow(chk, prog, tier))
